@@ -27,7 +27,7 @@ func init() {
 	})
 	register("C03", []string{"./backend/...", "./constraint/..."}, func(p *Prog, r *Report) {
 		r.Engines = []string{"conc(CONC-CTX,CONC-CLOSE,CONC-DAG,CONC-SIGNAL)", "verifier(V-ERR)", "sibling"}
-		r.Explanation = "Static analysis of the channel protocol of the 7 PLONK and 7 Groth16 provers. Decided: (CONC-CTX) every receive from a stage channel of the PLONK instance is a select that also watches ctx.Done() and returns an error on cancellation; (CONC-CLOSE) every stage channel has exactly one close site and that close is passed on every successful exit of its stage; (CONC-DAG) the wait-for graph between stages is acyclic; (CONC-SIGNAL) every goroutine body in Groth16 Prove (and the PLONK helpers with local join channels) signals its channel on every exit path; (V-ERR) no error result is discarded in Prove and the stage methods, so a failing Solve reaches the caller; (HASH-KILL / HASH-CLEAN) in the backend packages, data written to a hasher reaches a Sum before any Reset, and a hasher supplied through the prover / verifier options is Reset after every Sum on every path to the exit, so that prover and verifier given the same hasher object stay consistent. These are the structural reasons why Prove cannot hang on an unsatisfied witness nor deadlock on a satisfied one. NOT decided: that honest proofs verify (algebra), domain sizing for tiny systems, option-combination consistency, absence of panics inside FFT/MSM."
+		r.Explanation = "Static analysis of the channel protocol of the 7 PLONK and 7 Groth16 provers. Decided: (CONC-CTX) every receive from a stage channel of the PLONK instance is a select that also watches ctx.Done() and returns an error on cancellation; (CONC-CLOSE) every stage channel has exactly one close site and that close is passed on every successful exit of its stage; (CONC-DAG) the wait-for graph between stages is acyclic; (CONC-SIGNAL) every goroutine body in Groth16 Prove (and the PLONK helpers with local join channels) signals its channel on every exit path; (V-ERR) no error result is discarded in Prove and the stage methods, so a failing Solve reaches the caller; (HASH-KILL / HASH-CLEAN) in the backend packages, data written to a hasher reaches a Sum before any Reset, and a hasher supplied through the prover / verifier options is Reset after every Sum on every path to the exit, so that prover and verifier given the same hasher object stay consistent; (HASH-FRESH) every Sum on a long-lived hasher is separated from earlier uses by a Reset (before or after); (HTF-AGREE) prover and verifier reduce the commitment hash-to-field digest with the same byte-string shape. These are the structural reasons why Prove cannot hang on an unsatisfied witness nor deadlock on a satisfied one. NOT decided: that honest proofs verify (algebra), domain sizing for tiny systems, option-combination consistency, absence of panics inside FFT/MSM."
 		r.RuleText = "one obligation per wait site, per stage channel, per goroutine body, per error-returning call; nontrivial = discharged by a found select case / close / signal"
 		r.Assumptions = []string{"errgroup.WithContext cancels ctx when a stage returns an error (x/sync contract)"}
 		RunPlonkConc(p, r)
@@ -46,6 +46,8 @@ func init() {
 		backendScope := func(pkg string) bool { return strings.HasPrefix(pkg, modPath+"/backend/") }
 		RunHashKill(p, r, backendScope)
 		RunHashClean(p, r, backendScope)
+		RunHashFresh(p, r, backendScope)
+		RunHtfAgree(p, r)
 		RunSibling(p, r, "C03")
 		r.RequireMin("CONC-CTX", 7*12)
 		r.RequireMin("CONC-CLOSE", 7*9)
